@@ -191,6 +191,15 @@ def run(ctx):
             used = sorted(set(cc.callee_q.rsplit("::", 1)[1] for cb in closure_bodies(fx, c) for x in tree(cb) for cc in x.calls() if cc.callee_q and cc.callee_q.startswith("clap_builder::builder::arg::Arg::")))
             res.check(want in used, "R18.4", "lookup-alias-aware|" + fn_, c.where(), "argument looked up through %s" % want,
                       "%s identifies the argument of a flag through %s only: a visible alias (which the real parser accepts) is not recognised, so the shadow parse goes out of step (offers stacked flags where a value is expected, forgets the pending option)" % (fn_, used))
+    # ---------------- R18.4c a word that names a subcommand moves the shadow parse into it whatever value state is open
+    # (the real parser does so under subcommand_precedence_over_arg; gating the descent on the state leaves the engine at the parent)
+    cpl = fx.body("clap_complete::engine::complete::complete")
+    fsc = cpl.calls_to(r"Command::find_subcommand$")
+    require(fx, res, "R18.4", "descends-into-subcommands", cpl, r"Command::find_subcommand$", len(fsc), 1, "complete() no longer follows subcommand names")
+    for c in fsc:
+        bg = [g for g in guard_strs(cpl, c.bb) if re.match(r"^[TF]:", g) and not re.match(r"^F:eq\(cursor\(", g)]
+        res.check(not bg, "R18.4", "descent-not-gated-on-state", c.where(), "descent independent of the pending-value state",
+                  "complete() follows a subcommand name only under %s: with subcommand_precedence_over_arg the real parser enters the subcommand while values are open, the engine stays at the parent and offers the wrong level" % bg)
     # ---------------- R18.3b nothing but the reviewed tests can drop a candidate (completeness side)
     OKC = (r"(candidate::CompletionCandidate::(get_value|is_hide_set|get_id|get_tag|get_display_order|new|help|hide|id|tag|display_order|add_prefix)|arg::Arg::(get_\w+|is_positional)|"
            r"possible_value::PossibleValue::(get_\w+|is_hide_set)|complete::populate_arg_candidate|command::Command::get_\w+)$")
